@@ -618,12 +618,60 @@ func TestSequenceLevel(t *testing.T) {
 
 type cliCase struct {
 	Ali       gen.Ali    `json:"ali"`
+	More      []gen.Ali  `json:"more,omitempty"`   // further alignments of the same Phylip file
+	Ragged    int        `json:"ragged,omitempty"` // k > 0: the k-th alignment of the file is made ragged
 	Cmd       string     `json:"cmd"`
 	Subset    []string   `json:"subset"`
 	Unaligned bool       `json:"unaligned,omitempty"` // --unaligned: a sequence set, rows of any length
 	Format    string     `json:"format,omitempty"`    // "" = fasta, "phylip"
 	Layout    cli.Layout `json:"layout,omitempty"`    // presentation of a fasta input
 	Out       string     `json:"out,omitempty"`       // "" = standard output, "new" / "stale" = -o file
+}
+
+func cliRows(t *rapid.T, n, l int, ragged bool) []gen.Row {
+	var rows []gen.Row
+	for i := 0; i < n; i++ {
+		li := l
+		if ragged {
+			li = rapid.IntRange(1, l).Draw(t, "Li")
+		}
+		// at least one unambiguous nucleotide per row so that alphabet detection says nt
+		rows = append(rows, gen.Row{Name: fmt.Sprintf("s%d", i), Seq: "A" + gen.SeqN(t, "ACGTRYSWKMBDHVNacgtryswkmbdhvn-.*", li-1)})
+	}
+	return rows
+}
+
+// cliExpect is the transform of one alignment (or sequence set) by the command
+func cliExpect(cmd string, subset []string, rows []gen.Row) []gen.Row {
+	want := make([]gen.Row, len(rows))
+	copy(want, rows)
+	switch cmd {
+	case "revcomp":
+		for i := range want {
+			want[i].Seq = refRevComp(want[i].Seq)
+		}
+	case "revcomp-subset":
+		for _, name := range subset {
+			for i := range want {
+				if want[i].Name == name {
+					want[i].Seq = refRevComp(want[i].Seq)
+				}
+			}
+		}
+	case "tolower":
+		for i := range want {
+			want[i].Seq = asciiLower(want[i].Seq)
+		}
+	case "toupper":
+		for i := range want {
+			want[i].Seq = asciiUpper(want[i].Seq)
+		}
+	case "unalign":
+		for i := range want {
+			want[i].Seq = ungapped(want[i].Seq)
+		}
+	}
+	return want
 }
 
 func TestCLI(t *testing.T) {
@@ -639,20 +687,24 @@ func TestCLI(t *testing.T) {
 		l := rapid.SampledFrom([]int{1, 2, 3, 7, 20, 79, 80, 81, 161}).Draw(t, "L")
 		c.Ali.Alphabet = "nt"
 		c.Unaligned = c.Cmd != "unalign" && rapid.IntRange(0, 3).Draw(t, "unaligned") == 0
-		if !c.Unaligned && rapid.IntRange(0, 3).Draw(t, "phylip") == 0 {
+		if !c.Unaligned && rapid.IntRange(0, 2).Draw(t, "phylip") == 0 {
 			c.Format = "phylip"
 		}
 		if c.Format == "" {
 			c.Layout = cli.DrawLayout(t)
 		}
 		c.Out = rapid.SampledFrom([]string{"", "", "new", "stale"}).Draw(t, "out")
-		for i := 0; i < n; i++ {
-			li := l
-			if c.Unaligned {
-				li = rapid.IntRange(1, l).Draw(t, "Li")
+		c.Ali.Rows = cliRows(t, n, l, c.Unaligned)
+		if c.Format == "phylip" && rapid.Bool().Draw(t, "several") {
+			// a Phylip file may hold several alignments: every one of them is transformed
+			for k, more := 0, rapid.IntRange(1, 3).Draw(t, "more"); k < more; k++ {
+				a := gen.Ali{Alphabet: "nt"}
+				a.Rows = cliRows(t, rapid.IntRange(1, 5).Draw(t, "rows2"), rapid.SampledFrom([]int{1, 2, 5, 20, 61}).Draw(t, "L2"), false)
+				c.More = append(c.More, a)
 			}
-			// at least one unambiguous nucleotide per file so that alphabet detection says nt
-			c.Ali.Rows = append(c.Ali.Rows, gen.Row{Name: fmt.Sprintf("s%d", i), Seq: "A" + gen.SeqN(t, "ACGTRYSWKMBDHVNacgtryswkmbdhvn-.*", li-1)})
+			if rapid.IntRange(0, 2).Draw(t, "ragged") == 0 {
+				c.Ragged = rapid.IntRange(1, 1+len(c.More)).Draw(t, "raggedwhich")
+			}
 		}
 		if c.Cmd == "revcomp-subset" {
 			k := rapid.IntRange(1, 3).Draw(t, "k")
@@ -666,116 +718,155 @@ func TestCLI(t *testing.T) {
 		}
 		return c
 	}, func(c cliCase) (o pbt.Outcome, err error) {
+		alis := [][]gen.Row{c.Ali.Rows}
+		for _, a := range c.More {
+			alis = append(alis, a.Rows)
+		}
 		var in string
 		var fmtArgs []string
 		if c.Format == "phylip" {
-			in = cli.TempFile(dir, ".phy", cli.Phylip(c.Ali.Rows))
+			text := ""
+			for k, rows := range alis {
+				block := cli.Phylip(rows)
+				if c.Ragged == k+1 {
+					// the last row loses its last residue: not an alignment any more
+					block = strings.TrimSuffix(block, "\n")
+					block = block[:len(block)-1] + "\n"
+				}
+				text += block
+			}
+			in = cli.TempFile(dir, ".phy", text)
 			fmtArgs = []string{"-p"}
 		} else {
 			in = cli.TempFile(dir, ".fa", cli.FastaLayout(c.Ali.Rows, c.Layout))
 		}
-		want := make([]gen.Row, len(c.Ali.Rows))
-		copy(want, c.Ali.Rows)
-		args := []string{}
-		switch c.Cmd {
-		case "revcomp":
-			args = []string{"revcomp", "-i", in}
-			for i := range want {
-				want[i].Seq = refRevComp(want[i].Seq)
-			}
-		case "revcomp-subset":
-			args = []string{"revcomp", "-i", in}
-			for _, name := range c.Subset {
-				for i := range want {
-					if want[i].Name == name {
-						want[i].Seq = refRevComp(want[i].Seq)
-					}
-				}
-			}
-		case "tolower":
-			args = []string{"tolower", "-i", in}
-			for i := range want {
-				want[i].Seq = asciiLower(want[i].Seq)
-			}
-		case "toupper":
-			args = []string{"toupper", "-i", in}
-			for i := range want {
-				want[i].Seq = asciiUpper(want[i].Seq)
-			}
-		case "unalign":
-			args = []string{"unalign", "-i", in}
-			for i := range want {
-				want[i].Seq = ungapped(want[i].Seq)
-			}
+		var wants [][]gen.Row
+		for _, rows := range alis {
+			wants = append(wants, cliExpect(c.Cmd, c.Subset, rows))
 		}
-		args = append(args, fmtArgs...)
+		sub := c.Cmd
+		if sub == "revcomp-subset" {
+			sub = "revcomp"
+		}
+		args := append([]string{sub, "-i", in}, fmtArgs...)
 		if c.Unaligned {
 			args = append(args, "--unaligned")
 		}
-		outFile := ""
+		var outFiles []string
 		if c.Out != "" {
-			outFile = cli.TempFile(dir, ".out", "")
-			os.Remove(outFile)
-			args = append(args, "-o", outFile)
+			prefix := cli.TempFile(dir, ".out", "")
+			os.Remove(prefix)
+			args = append(args, "-o", prefix)
+			outFiles = []string{prefix}
 			if c.Cmd == "unalign" {
 				// -o is a prefix there: one file per alignment of the input
-				outFile += "_000001.fa"
+				outFiles = nil
+				for k := range alis {
+					outFiles = append(outFiles, fmt.Sprintf("%s_%06d.fa", prefix, k+1))
+				}
 			}
 			if c.Out == "stale" {
-				cli.StaleFile(outFile, 40)
+				for _, f := range outFiles {
+					cli.StaleFile(f, 40)
+				}
 			}
 		}
 		if c.Cmd == "revcomp-subset" {
 			args = append(args, c.Subset...)
 		}
 		r := cli.Run("", args...)
+		o.Class("cmd=%s", c.Cmd)
+		if c.Ragged > 0 {
+			// the file does not hold alignments only: the command must say so, whatever it printed
+			// for the alignments before the bad one
+			if r.Exit == 0 {
+				return o, fmt.Errorf("goalign %v: alignment %d of %d of the input has a short row but the exit status is 0 (stderr %q)", args, c.Ragged, len(alis), r.Stderr)
+			}
+			o.Class("refused: ragged alignment %s of the file", map[bool]string{true: "last", false: "not last"}[c.Ragged == len(alis)])
+			o.NonTrivial = true
+			return o, nil
+		}
 		if r.Exit != 0 {
 			return o, fmt.Errorf("goalign %v: exit %d, stderr %q", args, r.Exit, r.Stderr)
 		}
-		text := r.Stdout
-		if outFile != "" {
-			b, rerr := os.ReadFile(outFile)
-			if rerr != nil {
-				return o, fmt.Errorf("goalign %v: output file not written: %v", args, rerr)
-			}
+		texts := []string{r.Stdout}
+		if len(outFiles) > 0 {
 			if strings.TrimSpace(r.Stdout) != "" {
 				return o, fmt.Errorf("goalign %v: output also printed on standard output: %q", args, r.Stdout)
 			}
-			text = string(b)
-		}
-		var got []gen.Row
-		var perr error
-		if c.Format == "phylip" && c.Cmd != "unalign" {
-			var alis [][]gen.Row
-			alis, perr = cli.ParsePhylipStream(text)
-			if perr == nil && len(alis) != 1 {
-				perr = fmt.Errorf("%d alignments in the output", len(alis))
-			}
-			if perr == nil {
-				got = alis[0]
-			}
-		} else {
-			got, perr = cli.ParseFasta(text)
-		}
-		if perr != nil {
-			return o, fmt.Errorf("goalign %v: unreadable output: %v\n%q", args, perr, text)
-		}
-		if c.Cmd == "unalign" {
-			// an entirely gapped row may be printed as an empty record
-			for i := range got {
-				got[i].Seq = strings.TrimSpace(got[i].Seq)
+			texts = nil
+			for _, f := range outFiles {
+				b, rerr := os.ReadFile(f)
+				if rerr != nil {
+					return o, fmt.Errorf("goalign %v: output file not written: %v", args, rerr)
+				}
+				texts = append(texts, string(b))
 			}
 		}
-		if !gen.SameRows(got, want) {
-			return o, fmt.Errorf("goalign %v (input layout %+v)\n got : %s\n want: %s", args, c.Layout, gen.Show(got), gen.Show(want))
+		// the results, one list of rows per alignment of the input
+		var gots [][]gen.Row
+		switch {
+		case c.Format == "phylip" && c.Cmd != "unalign":
+			var perr error
+			gots, perr = cli.ParsePhylipStream(texts[0])
+			if perr != nil {
+				return o, fmt.Errorf("goalign %v: unreadable output: %v\n%q", args, perr, texts[0])
+			}
+		case c.Cmd == "unalign" && len(outFiles) > 0:
+			for _, text := range texts {
+				g, perr := cli.ParseFasta(text)
+				if perr != nil {
+					return o, fmt.Errorf("goalign %v: unreadable output: %v\n%q", args, perr, text)
+				}
+				gots = append(gots, g)
+			}
+		default:
+			// FASTA on one stream: the records of all alignments one after the other
+			g, perr := cli.ParseFasta(texts[0])
+			if perr != nil {
+				return o, fmt.Errorf("goalign %v: unreadable output: %v\n%q", args, perr, texts[0])
+			}
+			at := 0
+			for _, w := range wants {
+				e := at + len(w)
+				if e > len(g) {
+					e = len(g)
+				}
+				gots = append(gots, g[at:e])
+				at = e
+			}
+			if at != len(g) {
+				return o, fmt.Errorf("goalign %v: %d records in the output, %d expected", args, len(g), at)
+			}
 		}
-		o.NonTrivial = !gen.SameRows(want, c.Ali.Rows)
-		o.Class("cmd=%s", c.Cmd)
+		if len(gots) != len(wants) {
+			return o, fmt.Errorf("goalign %v: %d alignments in the output for %d in the input", args, len(gots), len(wants))
+		}
+		changed := false
+		for k := range wants {
+			got := gots[k]
+			if c.Cmd == "unalign" {
+				// an entirely gapped row may be printed as an empty record
+				for i := range got {
+					got[i].Seq = strings.TrimSpace(got[i].Seq)
+				}
+			}
+			if !gen.SameRows(got, wants[k]) {
+				return o, fmt.Errorf("goalign %v (input layout %+v), alignment %d of %d\n got : %s\n want: %s", args, c.Layout, k+1, len(wants), gen.Show(got), gen.Show(wants[k]))
+			}
+			if !gen.SameRows(wants[k], alis[k]) {
+				changed = true
+			}
+		}
+		o.NonTrivial = changed
 		if c.Unaligned {
 			o.Class("--unaligned")
 		}
 		if c.Format != "" {
 			o.Class("format=%s", c.Format)
+		}
+		if len(alis) > 1 {
+			o.Class("several alignments in the file")
 		}
 		if !c.Layout.Plain() {
 			o.Class("fasta layout other than one line per sequence")
